@@ -666,7 +666,7 @@ def fragment_completions(db):
         kws = None
         for t, v in conds:
             t, v = _fold_not(t, v)
-            if v and isinstance(t, ast.Compare) and len(t.ops) == 1 and isinstance(t.left, ast.Name):
+            if v and isinstance(t, ast.Compare) and len(t.ops) == 1:
                 c = t.comparators[0]
                 if isinstance(t.ops[0], ast.Eq) and isinstance(c, ast.Constant) and isinstance(c.value, str):
                     kws = [c.value]
